@@ -96,9 +96,10 @@ def register(reg):
                  trusted='T-HTTP: releasing the response')
     reg.contract(R + '.text', params={'self': Obj(R)}, returns=KStr, raises=fault_raises, assumes_inv=False, maintains_inv=False,
                  trusted='T-HTTP: body as text')
-    reg.cls(HS, fields={}, methods={'get': HS + '.get'})
+    reg.cls(HS, fields={}, ghost={'g_last_url': KStr}, methods={'get': HS + '.get'})
     reg.contract(HS + '.get', params={'self': Obj(HS), 'url': KStr}, returns=Obj(R), assumes_inv=False, maintains_inv=False,
-                 trusted='T-HTTP: session.get(url) is the response to a GET of that URL')
+                 modifies=['self.g_last_url'], ensures=['self.g_last_url == url'],
+                 trusted='T-HTTP: session.get(url) is the response to a GET of that URL (ghost g_last_url: the URL asked)')
     dspec.fields['session'] = Obj(HS)
     dspec.fields['block_semaphore'] = reg.usort('Opaque')
     dspec.ghost['g_file'] = Obj(F)        # the file object the last streaming attempt wrote to (ghost observer)
@@ -106,9 +107,11 @@ def register(reg):
     allr = dict(fault_raises)
     reg.contract(
         D + '._get_to_file', params={'rest_url': KStr, 'filename': KStr}, returns=Int, raises=allr,
-        modifies=['self.g_file', 'self.g_resp'],
+        modifies=['self.g_file', 'self.g_resp', 'self.session.g_last_url'],
         ghost={('before', 'size = 0'): ['self.g_file = file', 'self.g_resp = resp']},
         ensures=[('target-file', 'self.g_file.g_name == filename'),
+                 # every attempt asks the daemon that is current at that attempt (fail-over moves url_index between attempts)
+                 ('asks-the-current-daemon', 'self.session.g_last_url == self.urls[self.url_index] + rest_url'),
                  ('file-holds-exactly-this-attempts-body',
                   'self.g_file.g_content == catn(self.g_resp.content.g_chunks, len(self.g_resp.content.g_chunks))'),
                  ('size', 'result == len(self.g_file.g_content)')],
